@@ -313,4 +313,23 @@ theorem run_append (cfg : Cfg) (s : St) (ops1 ops2 : List Op) :
   | nil => simp [run]
   | cons op ops ih => simp [run, ih]
 
+theorem count_dtor (l : List Event) (id : Nat) : l.count (.dtor id) = l.countP (dtorC id).hit := by
+  simp [List.count, dtorC]
+
+theorem count_al (l : List Event) (a : Nat) : l.count (.al a) = l.countP (allocC a).hit := by
+  simp [List.count, allocC]
+
+theorem count_de (l : List Event) (a : Nat) : l.count (.de a) = l.countP (deallocC a).hit := by
+  simp [List.count, deallocC]
+
+theorem dcnt_le_one {s : St} (h : Inv s) (id : Nat) : s.dcnt id ≤ 1 := by
+  by_cases hlt : id < s.next
+  · by_cases ho : ∀ i, i < 4 → (s.slot i).ref ≠ some id
+    · rw [h.dead id hlt ho]; exact Nat.le_refl 1
+    · have : ∃ i, i < 4 ∧ (s.slot i).ref = some id := by
+        apply Classical.byContradiction; intro hn; apply ho; intro i hi hr; exact hn ⟨i, hi, hr⟩
+      obtain ⟨i, hi, hr⟩ := this
+      rw [h.live i id hi hr]; omega
+  · rw [h.fresh id (by omega)]; omega
+
 end Unifex.Proto.AnyObject
